@@ -43,6 +43,7 @@ from falcon.constants import _DEFAULT_STATIC_MEDIA_TYPES
 from falcon.constants import DEFAULT_MEDIA_TYPE
 from falcon.errors import HeaderNotSupported
 from falcon.media import Handlers
+from falcon.request_helpers import _COOKIE_NAME_RESERVED_CHARS
 from falcon.response_helpers import _format_content_disposition
 from falcon.response_helpers import _format_etag_header
 from falcon.response_helpers import _format_header_value_list
@@ -490,6 +491,10 @@ class Response:
 
         if not _is_ascii_encodable(name):
             raise KeyError('name is not ascii encodable')
+        # NOTE: SimpleCookie tolerates ':' in a cookie name, but it is not a
+        #   token character (RFC 6265), and Request.cookies skips such names.
+        if _COOKIE_NAME_RESERVED_CHARS.search(name):
+            raise KeyError('name is not a valid cookie name')
         if not _is_ascii_encodable(value):
             raise ValueError('value is not ascii encodable')
 
@@ -626,6 +631,9 @@ class Response:
         .. _Same-Site warnings:
             https://developer.mozilla.org/en-US/docs/Web/HTTP/Headers/Set-Cookie/SameSite#Fixing_common_warnings
         """  # noqa: E501
+        if _COOKIE_NAME_RESERVED_CHARS.search(name):
+            raise KeyError('name is not a valid cookie name')
+
         if self._cookies is None:
             self._cookies = http_cookies.SimpleCookie()
 
